@@ -375,6 +375,141 @@ reuse(FILE *o)
 }
 
 
+/* ---------- isal_update_histogram: the counts added by a call depend on the data only, not on what the structure's scratch hash table held
+ * before (left by an earlier call on related data, or garbage).  history 0: zeroed structure; 1: after a call on the same data, counts
+ * cleared; 2: after a call on a shifted copy of the data, counts cleared; 3: scratch filled with small positions; 4: scratch all ones ---------- */
+static void
+histogram_reuse(FILE *o)
+{
+        static unsigned char A[40000], B[40000];
+        static struct isal_huff_histogram h;
+        int i, hist, variant;
+        uint32_t x = 7;
+        for (i = 0; i < 40000; i++) {   /* text-like: words of a small vocabulary, so that 4-byte sequences recur at many distances */
+                static const char *w[] = { "stream ", "buffer ", "window ", "match ", "literal ", "length ", "distance ", "block ", "header ", "table " };
+                static int wi, wp;
+                if (!w[wi][wp]) {
+                        x = x * 1664525u + 1013904223u;
+                        wi = (x >> 24) % 10;
+                        wp = 0;
+                }
+                A[i] = (unsigned char) w[wi][wp++];
+        }
+        memcpy(B, A + 1237, 40000 - 1237);
+        memcpy(B + 40000 - 1237, A, 1237);
+        for (variant = 0; variant < 3; variant++) {
+                int n = variant == 0 ? 40000 : variant == 1 ? 9000 : 700;
+                for (hist = 0; hist < 7; hist++) {
+                        char name[64];
+                        unsigned char sig[ISAL_DEF_LIT_LEN_SYMBOLS * 4 + ISAL_DEF_DIST_SYMBOLS * 4];
+                        memset(&h, 0, sizeof(h));
+                        if (hist >= 5) { /* a call on the same data with every 97th (61st) byte altered: the matches break elsewhere, so other positions get hashed */
+                                memcpy(B, A, 40000);
+                                for (i = 50; i < 40000; i += (hist == 5 ? 97 : 61))
+                                        B[i] ^= 0x20;
+                                isal_update_histogram(B, 40000, &h);
+                                memcpy(B, A + 1237, 40000 - 1237);
+                                memcpy(B + 40000 - 1237, A, 1237);
+                        }
+                        if (hist == 1)
+                                isal_update_histogram(A, n, &h);
+                        else if (hist == 2)
+                                isal_update_histogram(B, 40000, &h);
+                        else if (hist == 3)
+                                for (i = 0; i < IGZIP_LVL0_HASH_SIZE; i++)
+                                        h.hash_table[i] = (uint16_t) (i * 37 % (n > 4 ? n - 4 : 1));
+                        else if (hist == 4)
+                                memset(h.hash_table, 0xff, sizeof(h.hash_table));
+                        memset(h.lit_len_histogram, 0, sizeof(h.lit_len_histogram));
+                        memset(h.dist_histogram, 0, sizeof(h.dist_histogram));
+                        isal_update_histogram(A, n, &h);
+                        for (i = 0; i < ISAL_DEF_LIT_LEN_SYMBOLS; i++)
+                                memcpy(sig + 4 * i, &h.lit_len_histogram[i], 4);
+                        for (i = 0; i < ISAL_DEF_DIST_SYMBOLS; i++)
+                                memcpy(sig + 4 * (ISAL_DEF_LIT_LEN_SYMBOLS + i), &h.dist_histogram[i], 4);
+                        sprintf(name, "histogram-size%d-history%d", variant, hist);
+                        dump(o, name, sig, sizeof(sig), 0);
+                }
+        }
+}
+
+/* ... and swept: the scratch hash table filled with one value v, for every position v of the input (any slot the routine fails to clear then
+ * offers position v as a match candidate to every sequence hashing there); signatures different from the zeroed structure's are dumped */
+static void
+histogram_prefill_sweep(FILE *o)
+{
+        static unsigned char A[2000];
+        static struct isal_huff_histogram h;
+        unsigned char first[(ISAL_DEF_LIT_LEN_SYMBOLS + ISAL_DEF_DIST_SYMBOLS) * 4], sig[sizeof(first)];
+        int i, v, others = 0;
+        uint32_t x = 11;
+        static const char *w[] = { "stream ", "buffer ", "window ", "match ", "literal ", "length ", "distance ", "block ", "header ", "table ", "code ", "symbol " };
+        int wi = 0, wp = 0;
+        for (i = 0; i < 2000; i++) {
+                if (!w[wi][wp]) {
+                        x = x * 1664525u + 1013904223u;
+                        wi = (x >> 24) % 12;
+                        wp = 0;
+                }
+                A[i] = (unsigned char) w[wi][wp++];
+        }
+        /* many short inputs built so that a 4-byte sequence first occurs INSIDE a match (where it is not entered into the table) and then again:
+         * U[20] U[20] z0 z1 filler (U[18] U[19] z0 z1) tail; the scratch table is filled with the position of the first occurrence */
+        for (v = 0; v < 30000 && others < 4; v++) {
+                unsigned char B[120], s0[sizeof(first)];
+                int pass;
+                for (i = 0; i < 120; i++) {
+                        x = x * 1664525u + 1013904223u;
+                        B[i] = (unsigned char) (x >> 24);
+                }
+                memcpy(B + 20, B, 20);
+                memcpy(B + 70, B + 38, 4);
+                for (pass = 0; pass < 2; pass++) {
+                        memset(&h, 0, sizeof(h));
+                        if (pass)
+                                for (i = 0; i < IGZIP_LVL0_HASH_SIZE; i++)
+                                        h.hash_table[i] = 38;
+                        isal_update_histogram(B, 120, &h);
+                        for (i = 0; i < ISAL_DEF_LIT_LEN_SYMBOLS; i++)
+                                memcpy(sig + 4 * i, &h.lit_len_histogram[i], 4);
+                        for (i = 0; i < ISAL_DEF_DIST_SYMBOLS; i++)
+                                memcpy(sig + 4 * (ISAL_DEF_LIT_LEN_SYMBOLS + i), &h.dist_histogram[i], 4);
+                        if (!pass)
+                                memcpy(s0, sig, sizeof(sig));
+                }
+                if (v == 0 || memcmp(s0, sig, sizeof(sig))) {
+                        char name[64];
+                        sprintf(name, "histogram-short-%d-history0", v);
+                        dump(o, name, s0, sizeof(s0), 0);
+                        sprintf(name, "histogram-short-%d-history1", v);
+                        dump(o, name, sig, sizeof(sig), 0);
+                        if (v)
+                                others++;
+                }
+        }
+        others = 0;
+        for (v = -1; v < 2000; v++) {
+                memset(&h, 0, sizeof(h));
+                if (v >= 0)
+                        for (i = 0; i < IGZIP_LVL0_HASH_SIZE; i++)
+                                h.hash_table[i] = (uint16_t) v;
+                isal_update_histogram(A, 2000, &h);
+                for (i = 0; i < ISAL_DEF_LIT_LEN_SYMBOLS; i++)
+                        memcpy(sig + 4 * i, &h.lit_len_histogram[i], 4);
+                for (i = 0; i < ISAL_DEF_DIST_SYMBOLS; i++)
+                        memcpy(sig + 4 * (ISAL_DEF_LIT_LEN_SYMBOLS + i), &h.dist_histogram[i], 4);
+                if (v < 0) {
+                        memcpy(first, sig, sizeof(sig));
+                        dump(o, "histogram-prefill-first", sig, sizeof(sig), 0);
+                } else if (memcmp(first, sig, sizeof(sig)) && others < 4) {
+                        char name[64];
+                        sprintf(name, "histogram-prefill-other-%d", v);
+                        dump(o, name, sig, sizeof(sig), 0);
+                        others++;
+                }
+        }
+}
+
 /* ---------- the output must not depend on WHERE the context lives: the same one-shot and streaming compression with the isal_zstream at many
  * different addresses (64 KiB apart, so that every address bit above the page offset varies); distinct outputs are dumped for TLC to compare ---------- */
 static void
@@ -983,6 +1118,8 @@ main(int argc, char **argv)
         if (!strcmp(argv[1], "reuse")) {
                 FILE *o = fopen(argv[2], "w");
                 reuse(o);
+                histogram_reuse(o);
+                histogram_prefill_sweep(o);
                 address_independence(o);
                 stateless_reuse(o);
                 signal(SIGSEGV, reuse_segv);
